@@ -24,6 +24,7 @@ def setup_process(preempt_prefixes=("yowsup.layers", "yowsup.stacks", "consonanc
     import consonance.protocol  # noqa
     import consonance.transport  # noqa
     import asyncore  # noqa
+    seams.auto_rebind()
     n = K_.setup_preemption(preempt_prefixes)
     _ready["codes"] = n
 
